@@ -1110,6 +1110,7 @@ func checkC12(w *World, r *Report) {
 	r.Assume = append(r.Assume, "runewidth.StringWidth/FillLeft/FillRight behave as documented", "one decorator instance per bar")
 	ruleFormatExchange(w, r, "C12")
 	ruleInitChannel(w, r, "C12")
+	ruleSyncAPI(w, r, "C12")
 	ruleDistributor(w, r, "C12")
 	ruleDecorExchange(w, r, "C12")
 	ruleWrappersUnwrap(w, r, "C12")
@@ -1397,4 +1398,63 @@ func (w *World) isWholeHeap(v ssa.Value, depth int) bool {
 		}
 	}
 	return true
+}
+
+// ruleSyncAPI (E-SYNCAPI): the two ends of the column wiring. WC.Sync hands the heap loop the
+// configuration's own channel and tells it whether the sync bit is set - nothing else - and the
+// configuration every built-in decorator is created with went through Init (initWC returns Init's
+// result), so a synchronised decorator's channel exists and is the one its Format uses.
+func ruleSyncAPI(w *World, r *Report, pfx string) {
+	rule := pfx + ".E-SYNCAPI"
+	syncBit, ok := w.decorConst("DSyncWidth")
+	if !ok {
+		r.Unresolved("anchor", "decor.DSyncWidth", "constant not found")
+		return
+	}
+	if fn := w.Func("decor.(WC).Sync"); fn != nil {
+		bad := ""
+		n := 0
+		w.enumPaths(fn, pathOpts{InlineDepth: 2, Inline: w.helperInline(fn)}, func(p *Path) {
+			if p.Exit != "return" || len(p.Ret) != 2 || bad != "" {
+				return
+			}
+			n++
+			if !p.loadsField(p.Ret[0], "decor.WC", "wsync") {
+				bad = "Sync hands out a channel other than the configuration's own (the decorator's Format would exchange on a different channel than the column's distributor)"
+				return
+			}
+			// the flag: the sync bit test itself, or a constant that agrees with the bit's atom on this path
+			fv := p.stripR(p.Ret[1])
+			if bv, isK := constBool(fv.V); isK {
+				if t := p.bitAtom(syncBit); (t == triTrue) != bv || t == triUnknown {
+					bad = "Sync reports a synchronisation flag that does not follow the sync bit"
+				}
+				return
+			}
+			q := *p
+			q.Atoms = []Atom{{Cond: fv, Pol: true}}
+			if q.bitAtom(syncBit) != triTrue {
+				bad = "Sync reports a synchronisation flag that is not the sync bit of the configuration"
+			}
+		})
+		r.Check(bad == "" && n > 0, rule, "decor.WC.Sync", w.pos(fn.Pos()), "(own channel, sync bit)", orStr(bad, "no returning path"))
+	} else {
+		r.Unresolved("anchor", "decor.(WC).Sync", "not found")
+	}
+	init := w.Func("decor.(*WC).Init")
+	if fn := w.Func("decor.initWC"); fn != nil && init != nil {
+		bad := ""
+		n := 0
+		w.enumPaths(fn, pathOpts{}, func(p *Path) {
+			if p.Exit != "return" || len(p.Ret) != 1 {
+				return
+			}
+			n++
+			c, ok := p.stripR(p.Ret[0]).V.(*ssa.Call)
+			if !ok || c.Call.StaticCallee() != init {
+				bad = "the configuration a decorator is created with is returned without Init: a synchronised decorator has no channel (Sync panics at the first frame) or keeps a shared one"
+			}
+		})
+		r.Check(bad == "" && n > 0, rule, "decor.initWC", w.pos(fn.Pos()), "returns Init()'s result", orStr(bad, "no returning path"))
+	}
 }
